@@ -71,8 +71,9 @@ PROPS["C18"] = dict(
 )
 
 PROPS["C04"] = dict(
-    modules=["Hpbf.Props.C04"],
-    theorems=t("Hpbf.C04", "inplace_forward inplace_forward_stopped inplace_events_eq inplace_backward "
+    modules=["Hpbf.Props.C04", "Hpbf.Props.ChainTotal"],
+    theorems=t("Hpbf.Chain", "same_inplace level0_all_backends") +
+             t("Hpbf.C04", "inplace_forward inplace_forward_stopped inplace_events_eq inplace_backward "
                "inplace_backward_stopped inplace_never_notOpened inplace_never_interrupted_unlimited inplace_prefix "
                "inplace_prefix_conv inplace_output_is_canonical_prefix inplace_limited inplace_limited_terminates "
                "inplace_limited_enough inplace_limited_enough_stopped bf_fuel_mono bf_deterministic bf_trace_mono "
@@ -138,8 +139,9 @@ PROPS["C15"] = dict(
 )
 
 PROPS["C01"] = dict(
-    modules=["Hpbf.Props.C01", "Hpbf.Props.C01Opt", "Hpbf.Props.C01Dse"],
-    theorems=t("Hpbf.C01", "C01_parse_ok_of_tree parse_forward parse_backward parse_never_interrupted parse_prefix "
+    modules=["Hpbf.Props.C01", "Hpbf.Props.C01Opt", "Hpbf.Props.C01Dse", "Hpbf.Props.ChainTotal"],
+    theorems=t("Hpbf.Chain", "level0_all_backends same_inplace same_ir parse_irOf") +
+             t("Hpbf.C01", "C01_parse_ok_of_tree parse_forward parse_backward parse_never_interrupted parse_prefix "
                "C01_odd_step_reaches_zero canonical_odd_loop_zeroes canonical_odd_loop_zeroes_src canonical_folded_loop_zeroes") +
              t("Hpbf.C01Dse", "eliminate_lockstep eliminate_preserves analSound_limited eliminate_preserves_limited "
                "eliminate_preserves_straightline never_interrupted tape_may_differ eliminate_total eliminate_none_iff "
@@ -158,7 +160,7 @@ PROPS["C01"] = dict(
              dict(suite="levelcap", quick=400, thorough=20000, judge="const"),
              dict(suite="irecho", quick=300, thorough=5000, judge="tie")],
     corpus=["programs"], corpus_judge="program",
-    scope="Level 0 is FULL: for every balanced program, environment and width (w >= 1) the IR produced by "
+    scope="HEADLINE (Props/ChainTotal, level0_all_backends): for every balanced source, width >= 1 and environment the canonical semantics, the in-place interpreter, the IR interpreter, the bytecode machine in both dispatch profiles (p = translate (parse src), total) have the SAME set of results (ending kind + event trace), and the machine code of the JIT returns the canonical result (forward; full converse in limited mode) under explicit range hypotheses. Level 0 is FULL: for every balanced program, environment and width (w >= 1) the IR produced by "
           "Program::parse, run by the IR interpreter model, has exactly the canonical event sequence, terminates iff "
           "the canonical run does, and every intermediate output is a canonical prefix (parse_forward/backward/prefix); "
           "the folding of odd-step loops is justified for every width. Levels >= 1: partial, see not_proved. The "
@@ -378,8 +380,9 @@ def c07_limited(run, harnesses):
 
 
 PROPS["C05"] = dict(
-    modules=["Hpbf.Props.C05", "Hpbf.Props.Chain"],
-    theorems=t("Hpbf.Chain", "bc_never_returns bc_runs_forever bc_runs_forever_or_bad bc_limited_interrupted bc_terminates bc_divergent_output jit_level0_divergent") +
+    modules=["Hpbf.Props.C05", "Hpbf.Props.Chain", "Hpbf.Props.ChainTotal"],
+    theorems=t("Hpbf.Chain", "bc_never_returns_unconditional bc_runs_forever_unconditional bc_limited_interrupted_unconditional bc_divergent_output_unconditional bc_terminates_unconditional jit_level0_divergent_unconditional") +
+             t("Hpbf.Chain", "bc_never_returns bc_runs_forever bc_runs_forever_or_bad bc_limited_interrupted bc_terminates bc_divergent_output jit_level0_divergent") +
              t("Hpbf.C05", "normTape_denotes sameCfg_sound step_congr repeat_diverges cert_diverges_sound "
                "cert_diverges_witness cert_halts_sound cert_consistent inplace_never_returns inplace_runs_forever "
                "inplace_limited_interrupted inplace_terminates inplace_divergent_output inplace_output_agrees "
@@ -410,8 +413,9 @@ PROPS["C05"] = dict(
 )
 
 PROPS["C07"] = dict(
-    modules=["Hpbf.Props.C07", "Hpbf.Props.C04", "Hpbf.Props.Chain"],
-    theorems=t("Hpbf.Chain", "bc_limited_finished bc_limited_prefix bc_limited_is_prefix bc_limited_enough jit_level0_limited jit_level0_limited_enough") +
+    modules=["Hpbf.Props.C07", "Hpbf.Props.C04", "Hpbf.Props.Chain", "Hpbf.Props.ChainTotal"],
+    theorems=t("Hpbf.Chain", "bc_limited_finished_unconditional bc_limited_is_prefix_unconditional bc_limited_enough_unconditional bc_limited_total_unconditional jit_level0_limited_unconditional jit_level0_limited_enough_unconditional") +
+             t("Hpbf.Chain", "bc_limited_finished bc_limited_prefix bc_limited_is_prefix bc_limited_enough jit_level0_limited jit_level0_limited_enough") +
              t("Hpbf.C07", "ir_limited_done ir_limited_stopped ir_limited_prefix ir_limited_is_prefix ir_limited_enough "
                "ir_limited_enough_stopped ir_limited_terminates ir_divergent_never_finished bc_limited_done "
                "bc_limited_stopped bc_limited_bad bc_limited_prefix bc_limited_is_prefix bc_limited_enough "
@@ -440,8 +444,9 @@ PROPS["C07"] = dict(
 )
 
 PROPS["C08"] = dict(
-    modules=["Hpbf.Props.C08", "Hpbf.Props.Chain"],
-    theorems=t("Hpbf.Chain", "bc_stops_like_canonical bc_limited_stops_like_canonical bc_stops_only_like_canonical bc_refused_byte") +
+    modules=["Hpbf.Props.C08", "Hpbf.Props.Chain", "Hpbf.Props.ChainTotal"],
+    theorems=t("Hpbf.Chain", "bc_stops_like_canonical_unconditional bc_stops_only_like_canonical_unconditional") +
+             t("Hpbf.Chain", "bc_stops_like_canonical bc_limited_stops_like_canonical bc_stops_only_like_canonical bc_refused_byte") +
              t("Hpbf.C08", "outByte_low8 eof_reads_zero eof_sticky eof_reply_reads_zero input_error_stops "
                "input_absent_stops output_refused_stops output_absent_sink_ok input_fails_iff output_fails_iff "
                "bf_stop_final bf_stops_only_at_io inplace_stop_final inplace_stops_only_at_io ir_stop_final "
@@ -620,8 +625,9 @@ PROPS["C13"] = dict(
 )
 
 PROPS["C02"] = dict(
-    modules=["Hpbf.Props.C02", "Hpbf.Props.C02Emit", "Hpbf.Props.C02Dse", "Hpbf.Props.C02Alloc", "Hpbf.Props.C02EmitTotal", "Hpbf.Props.C11", "Hpbf.Props.C07", "Hpbf.Props.Chain", "Hpbf.Props.C02AllocTotal"],
-    theorems=t("Hpbf.C02", "allocateTemps_total_of_pre totalPre_of_emit allocateTemps_total_of_emit translateE_total translateE_total_check") + t("Hpbf.C02.Alloc", "drainEnds_total liveMask_total alloc_step_total tinv_step alloc_total_defd_necessary alloc_total_defAt_necessary alloc_total_unread_necessary alloc_total_lastLt_necessary alloc_total_any_numRegs") +
+    modules=["Hpbf.Props.C02", "Hpbf.Props.C02Emit", "Hpbf.Props.C02Dse", "Hpbf.Props.C02Alloc", "Hpbf.Props.C02EmitTotal", "Hpbf.Props.C11", "Hpbf.Props.C07", "Hpbf.Props.Chain", "Hpbf.Props.C02AllocTotal", "Hpbf.Props.ChainTotal"],
+    theorems=t("Hpbf.Chain", "translate_ok translate_check translate_refines_unconditional translate_refines_noOnce_unconditional translate_never_bad_unconditional bytecode_level0_unconditional bytecode_level0_debug_unconditional bytecode_level0_source same_bc same_bc_debug level0_all_backends") +
+             t("Hpbf.C02", "allocateTemps_total_of_pre totalPre_of_emit allocateTemps_total_of_emit translateE_total translateE_total_check") + t("Hpbf.C02.Alloc", "drainEnds_total liveMask_total alloc_step_total tinv_step alloc_total_defd_necessary alloc_total_defAt_necessary alloc_total_unread_necessary alloc_total_lastLt_necessary alloc_total_any_numRegs") +
              t("Hpbf.C02", "emit_total emitOnly_total emit_forward' emit_backward' emit_prefix'") +
              t("Hpbf.Chain", "emit_targetsOk emit_brnz_target emit_brz_target emit_live0 translateE_phases translateE_ok_of_alloc passes_behEqIO translate_behEqIO translate_shape translate_forward translate_backward translate_prefix translate_refines translate_refines_noOnce translate_never_interrupted translate_not_bad_of_terminates parse_noOnce parse_onceOk bytecode_level0_forward bytecode_level0_backward bytecode_level0_prefix bytecode_level0 bytecode_level0_debug bytecode_level0_proper") +
              t("Hpbf.C02", "allocateTemps_preserves allocateTemps_latePre") +
@@ -649,7 +655,7 @@ PROPS["C02"] = dict(
              dict(suite="bcrun", quick=60, thorough=3000, judge="bcrun"),
              dict(suite="e2e", quick=1200, thorough=40000, thorough_seeds=3, judge="program")],
     corpus=["programs"], corpus_judge="program",
-    scope="END TO END AT LEVEL 0 (Props/Chain): for EVERY source text, width >= 1 and environment, if translate succeeds on the parsed program then the bytecode machine (both dispatch profiles) has exactly the canonical events: canonical terminates/stops => bytecode does with the same trace, conversely, and unfinished runs are prefixes of each other (bytecode_level0, bytecode_level0_debug); for ANY IR block (i.e. also optimizer output) translate refines the IR semantics under OnceOk (translate_refines) — the four phase theorems composed, TargetsOk of emitted code proved (emit_targetsOk), the .ok chain shown to fail only at the panic sites of emission/allocation (translateE_ok_of_alloc). Proved on the exact Lean port of the generator and the bytecode machine: (1) the FIRST phase of translate "
+    scope="UNCONDITIONAL (Props/ChainTotal): with p := translate blk n fuse (proved total, never the sentinel: translate_ok) — bytecode_level0_unconditional / _debug_unconditional need only balancedness and w >= 1; translate_refines_unconditional for every IR block under OnceOk; the bytecode of translate never reaches a bad state in any mode, budget or fuel (translate_never_bad_unconditional). END TO END AT LEVEL 0 (Props/Chain): for EVERY source text, width >= 1 and environment, if translate succeeds on the parsed program then the bytecode machine (both dispatch profiles) has exactly the canonical events: canonical terminates/stops => bytecode does with the same trace, conversely, and unfinished runs are prefixes of each other (bytecode_level0, bytecode_level0_debug); for ANY IR block (i.e. also optimizer output) translate refines the IR semantics under OnceOk (translate_refines) — the four phase theorems composed, TargetsOk of emitted code proved (emit_targetsOk), the .ok chain shown to fail only at the panic sites of emission/allocation (translateE_ok_of_alloc). Proved on the exact Lean port of the generator and the bytecode machine: (1) the FIRST phase of translate "
           "(analysis + value-numbering emission of every IR instruction, loops, ifs, fused scans, both fuse modes) "
           "refines the IR semantics for EVERY IR block at every width: emit_forward / emit_backward (same events, tape, "
           "pointer, environment for finished and I/O-stopped runs) and emit_prefix (unfinished runs are prefixes of each "
@@ -691,8 +697,9 @@ PROPS["C02"] = dict(
 
 
 PROPS["C03"] = dict(
-    modules=["Hpbf.Props.C03", "Hpbf.Props.C03Flow", "Hpbf.Props.C03Total", "Hpbf.Props.C11", "Hpbf.Props.C11Full", "Hpbf.Props.Chain"],
-    theorems=t("Hpbf.C03", "total_emitCopy total_emitAdd total_emitSub total_emitMul total_selector_iff selector_total selector_total_converse total_savedRegs total_emit_shape total_alloc_shape total_reorder_jitForm translate_jitForm translate_jitForm_numRegs total_arith_fits total_emitInstr compile_total_modulo_fits total_fits_of_bounds translate_compile translate_compile_of_localOk") + t("Hpbf.C02", "translateE_check") +
+    modules=["Hpbf.Props.C03", "Hpbf.Props.C03Flow", "Hpbf.Props.C03Total", "Hpbf.Props.C11", "Hpbf.Props.C11Full", "Hpbf.Props.Chain", "Hpbf.Props.ChainTotal"],
+    theorems=t("Hpbf.Chain", "jitCode_spec jitHyps_of_range jit_level0_forward_unconditional jit_level0_unique_unconditional jit_level0_prefix_unconditional jit_level0_divergent_unconditional jit_level0_limited_unconditional jit_level0_limited_enough_unconditional jit_forward_fin jit_limited_fin level0_all_backends") +
+             t("Hpbf.C03", "total_emitCopy total_emitAdd total_emitSub total_emitMul total_selector_iff selector_total selector_total_converse total_savedRegs total_emit_shape total_alloc_shape total_reorder_jitForm translate_jitForm translate_jitForm_numRegs total_arith_fits total_emitInstr compile_total_modulo_fits total_fits_of_bounds translate_compile translate_compile_of_localOk") + t("Hpbf.C02", "translateE_check") +
              t("Hpbf.Chain", "x86_ret_unique jit_of_bc jit_level0_forward jit_level0_unique jit_level0_prefix jit_level0_divergent jit_level0_limited jit_level0_limited_enough") +
              t("Hpbf.C03", "layout_decompose layout_locs layout_instr_at layout_epilogue_at layout_jcc_target layout_term_target "
                "layout_epilogue layout_skip8 layout_saved_regs layout_item_size layout_items_size prog_fetch_fast prog_fetch "
@@ -709,7 +716,7 @@ PROPS["C03"] = dict(
              dict(suite="irgen", quick=1500, thorough=80000, judge="tie"),
              dict(suite="e2e", quick=1500, thorough=50000, thorough_seeds=3, judge="program")],
     corpus=["programs", "jitforms"], corpus_judge="program",
-    scope="END TO END AT LEVEL 0 (Props/Chain): source text -> parse -> translate -> compileX86 -> program-level x86 machine: under the bundled hypotheses of prog_run (JitHyps), a canonically terminating program makes the machine code return 1 (0 after an I/O stop) with exactly the canonical events, every return is that one (jit_level0_forward, jit_level0_unique), running code only ever has emitted a canonical prefix (jit_level0_prefix), and in limited mode the function always returns, with rax = 1 only for a complete canonical run (jit_level0_limited). WHOLE-PROGRAM simulation, proved on the exact Lean port of the code generator (JitGen.compileX86) and an "
+    scope="UNCONDITIONAL UP TO RANGES (Props/ChainTotal): for p := translate (parse src) 11 false the contract check and the success of compileX86 are theorems; jit_level0_*_unconditional take only JitRange (supported width, code < 2^31 bytes, window/shift/temps displacements inside i32, distinct runtime addresses, stack alignment, budget < 2^64, no allocation beyond 2^40 cells). END TO END AT LEVEL 0 (Props/Chain): source text -> parse -> translate -> compileX86 -> program-level x86 machine: under the bundled hypotheses of prog_run (JitHyps), a canonically terminating program makes the machine code return 1 (0 after an I/O stop) with exactly the canonical events, every return is that one (jit_level0_forward, jit_level0_unique), running code only ever has emitted a canonical prefix (jit_level0_prefix), and in limited mode the function always returns, with rax = 1 only for a complete canonical run (jit_level0_limited). WHOLE-PROGRAM simulation, proved on the exact Lean port of the code generator (JitGen.compileX86) and an "
           "executable program-level x86 machine (X86Prog: byte-addressed code, flags, push/pop, rel8/rel32 jumps, the three "
           "runtime calls as atomic transitions that clobber every caller-saved register): prog_run — for every bytecode "
           "program that passes the verified contract checker (BcWf.check p 11) and compiles, from the entry state the "
